@@ -1,7 +1,7 @@
 """C12 - the database digest is a function of the covered files (DESIGN.md section 4, C12)."""
 from core import glob_match, rvalue_reads
 from engine import Sink, fn_origins, find_guards, track_result, success_reachable, CMP_REL, ALL3
-from props.common import Ctx, fn_short  # noqa: F401
+from props.common import Ctx, fn_short, between  # noqa: F401
 
 EXPLANATION = (
     'Static rules over mithril-cardano-node-internal-database: (a) leaf order is canonical - the digests form a '
@@ -92,19 +92,27 @@ def run(ctx):
         R.missing('a', e)
     f = ctx.try_fn('a', CMT)
     if f is not None:
-        ctx.arg_origin('a', f, 'mithril_merkle_tree::merkle_tree::MKTree::new', 0,
-                       require=['call:std::collections::btree::map::BTreeMap::into_values', 'call:*CardanoImmutableDigester::process_immutables'],
-                       desc='(leaves) <- computed digests in key order')
-        lf = f.logic()
-        bad = [c.best() for c in lf.body.calls() if any(glob_match('*::sort*', n) or glob_match('*::reverse', n) or glob_match('*::shuffle*', n) or glob_match('*::dedup*', n) for n in c.names())]
+        # layout independent: wherever the tree is built under compute_merkle_tree, its leaves are the values of the ordered digest
+        # map in key order, the digests were computed for the files the beacon-bounded listing returned
+        TREE = ['mithril_merkle_tree::merkle_tree::MKTree::new', 'mithril_merkle_tree::merkle_tree::MKTree::new_from_iter']
+        ctx.sink_arg('a', CMT, TREE, 0, require=['call:std::collections::btree::map::BTreeMap::into_values'], require_via=[CID],
+                     desc='(leaves) <- computed digests in key order')
+        under_list = {id(x) for x in ctx.closure_fns(LIST)}
+        bad = []
+        for raw in ctx.closure_fns(CMT):
+            if id(raw) in under_list or raw.unit.crate != f.unit.crate:
+                continue
+            for h in raw.family():
+                bad += [n for (cal, res, _l) in h.calls for n in (cal, res) if n and (glob_match('*::sort*', n) or glob_match('*::reverse', n) or
+                                                                                      glob_match('*::shuffle*', n) or glob_match('*::dedup*', n))]
         if bad:
-            R.violation('a', 'R5', 'compute_merkle_tree does not reorder the digests', 'merkle_tree:reorder', str(bad), f.loc())
+            R.violation('a', 'R5', 'compute_merkle_tree does not reorder the digests', 'merkle_tree:reorder', str(sorted(set(bad))[:4]), f.loc())
         else:
             R.ok('a', 'R5', 'compute_merkle_tree does not reorder the digests', '', f.loc())
         ctx.r1('a', CMT, Sink('list_immutable_files_to_process', LIST, 'ok'))
-        ctx.arg_origin('a', f, LIST, 1, require=['pty:CardanoDbBeacon.immutable_file_number'], desc='(up to) <- beacon.immutable_file_number')
-        ctx.arg_origin('a', f, LIST, 0, require=['p#2'], desc='(dir) <- dirpath')
-        ctx.arg_origin('a', f, '*CardanoImmutableDigester::process_immutables', 1, require=['call:' + LIST], desc='(files) <- the listed files')
+        ctx.sink_arg('a', CMT, LIST, 1, require=['pty:CardanoDbBeacon.immutable_file_number'], desc='(up to) <- beacon.immutable_file_number', depth=3)
+        ctx.sink_arg('a', CMT, LIST, 0, require=['p#2'], desc='(dir) <- dirpath', depth=3)
+        ctx.sink_arg('a', CMT, CID, 0, require_via=[LIST], desc='(files to digest) <- the listed files', depth=4)
     cmpf = ctx.try_fn('a', '<' + IMF + ' as std::cmp::Ord>::cmp')
     if cmpf is not None:
         rd = set()
@@ -152,7 +160,7 @@ def run(ctx):
         else:
             R.violation('b', 'R6', 'list_immutable_files_to_process keeps files with number <= beacon', 'list:filter', 'no `number <= up_to` filter', lf_.loc())
         ctx.guard_gate('b', lf_, 'last listed number >= beacon (the beacon file exists)',
-                       lambda g: g.op in ('Lt', 'Le', 'Gt', 'Ge', 'Ne', 'Eq') and has(g.b_orig, 'p#2') and has(g.a_orig, 'call:*::last'),
+                       between(['call:*::last'], ['p#2']),
                        {'eq', 'gt'}, key='list:beacon-exists')
         ctx.arg_origin('b', lf_, IMF + '::list_all_in_dir', 0, require=['p#1'], desc='(dir) <- dirpath')
 
@@ -167,6 +175,24 @@ def run(ctx):
             for o in fn_origins(la2, c.args[0], 'adapters'):
                 if o.startswith('call:'):
                     feeders.add(o[5:])
+        # ... or in a closure applied to the walker's entries (`walker.map(|e| ImmutableFile::new(e.into_path()))`)
+        for g in la2.family():
+            if g is la2:
+                continue
+            for c in g.body.calls():
+                if any(glob_match(IMF + '::new', n) for n in c.names()):
+                    news.append(c)
+                    for o in fn_origins(g, c.args[0], True):
+                        if o.startswith('call:'):
+                            feeders.add(o[5:])
+        # `entries.map(ImmutableFile::new)`: the constructor handed over as a function item, applied to the receiver's elements
+        for g in la2.family():
+            for c in g.body.calls():
+                if any(a[0] == 'fn' and glob_match(IMF + '::new', a[1]) for a in c.args[1:]) and c.args:
+                    news.append(c)
+                    for o in fn_origins(g, c.args[0], True):
+                        if o.startswith('call:'):
+                            feeders.add(o[5:])
         work = [la2] + [f for n in feeders for f in ws.find_all(n) if f.unit.crate == la2.unit.crate]
         walkers, bounded, readdir = [], [], []
         for f in work:
@@ -325,7 +351,7 @@ def run(ctx):
                                 if si != 't' and rv2[0] == 'agg' and rv2[2] == 'std::option::Option' and rv2[4] == 'None':
                                     fallback += 1
         ret_is_map = lf2.ret.startswith('std::collections::btree::map::BTreeMap<')
-        if gets and fallback >= 2 and ret_is_map:
+        if gets and fallback >= 1 and ret_is_map:
             R.ok('d', 'R1', 'fetch_immutables_cached: infallible; a cache read error falls back to the all-None map', '%d fallback builders' % fallback, ff.loc())
         else:
             R.violation('d', 'R1', 'fetch_immutables_cached: infallible; a cache read error falls back to the all-None map', 'fetch:fallback',
